@@ -78,3 +78,42 @@ Example C04_example :
       c_val c1 = VStr [120; 32; 38; 38; 32; 40; 121] /\ c_op c2 = OGt /\ c_op c3 = OLt
   | _ => False end.
 Proof. vm_compute. repeat split. Qed.
+
+(** THE SPLITTING LAYER below the regular expressions (Model/GrlSplit.v, Proofs/GrlSplitProofs.v): the statement split of
+    parse_then_clause, split_arguments, find_outside_strings and the append / assignment classification of a statement.
+    A "piece" is text that leaves the quote automaton outside a literal and holds no separator outside its literals. *)
+From RRE Require Import Model.GrlSplit Proofs.GrlSplitProofs.
+
+(** string literals are opaque: a literal in either quote character, whatever it contains except its own quote - separators,
+    the other quote character, '=', parentheses - is a piece for every separator that is not a quote *)
+Theorem C04_literal_is_opaque_to_splitting : forall sep x content,
+  is_quote x = true -> is_quote sep = false -> ~ In x content -> piece_ok sep (literal x content).
+Proof. exact literal_is_piece. Qed.
+Print Assumptions C04_literal_is_opaque_to_splitting.
+
+Theorem C04_pieces_compose : forall sep a b, piece_ok sep a -> piece_ok sep b -> piece_ok sep (a ++ b).
+Proof. exact pieces_compose. Qed.
+Print Assumptions C04_pieces_compose.
+
+(** the action list: statements written one after the other with ';' between them come back as exactly those statements
+    (trimmed, empty ones dropped), and the arguments of a call as exactly the written arguments *)
+Theorem C04_then_statements_roundtrip : forall ps, ps <> [] -> Forall (piece_ok 59) ps ->
+  then_statements (join 59 ps) = filter nonempty (map trimw ps).
+Proof. exact then_statements_roundtrip. Qed.
+Print Assumptions C04_then_statements_roundtrip.
+
+Theorem C04_split_arguments_roundtrip : forall ps, ps <> [] -> Forall (piece_ok 44) ps -> split_arguments (join 44 ps) = ps.
+Proof. exact split_arguments_roundtrip. Qed.
+Print Assumptions C04_split_arguments_roundtrip.
+
+(** and the two slices parse_action_statement takes around `+=` / `=` are on character boundaries, for every statement text *)
+Theorem C04_statement_classification_total : forall st, classify st <> SPanic.
+Proof. exact classify_no_panic. Qed.
+Print Assumptions C04_statement_classification_total.
+
+(** non-vacuity: `X.b = "a;b"; Log("x, y = z", 1); X.c += 'it;s';` - three statements, an assignment, a call, an append *)
+Example C04_split_example :
+  parse_then [88;46;98;32;61;32;34;97;59;98;34;59;32;76;111;103;40;34;120;44;32;121;32;61;32;122;34;44;32;49;41;59;32;88;46;99;32;43;61;32;39;105;116;59;115;39;59]
+  = [SSet [88;46;98] [34;97;59;98;34]; SOther [76;111;103;40;34;120;44;32;121;32;61;32;122;34;44;32;49;41]; SAppend [88;46;99] [39;105;116;59;115;39]]
+  /\ split_arguments [34;120;44;32;121;34;44;32;49] = [[34;120;44;32;121;34]; [32;49]].
+Proof. vm_compute. split; reflexivity. Qed.
